@@ -63,6 +63,10 @@ def gen_plan(seed, tier):
             plan['cost']['params']['r2'] = rng.choice([0.25, 1.0, 4.0])
         lo, hi = gen.gen_box(rng, plan['dim'], exotic=False)
         plan['init'] = {'lo': lo, 'hi': hi}
+        if rng.random() < 0.25:
+            # the cost fails once in mid-generation (after generation 0); the step is retried
+            npop_ = max(plan['npop'], plan['dim'], 4)
+            plan['faults'] = [{'at': 'cost#%d' % (npop_ * rng.randint(1, 3) + rng.randint(1, npop_)), 'kind': 'raise', 'msg': 'injected failure of the cost function'}]
         return plan
     dim = rng.randint(1, 5)
     plan['dim'] = dim
@@ -171,6 +175,8 @@ def run_de(plan, run, violate, stats):
         return strategy
     st.random = rec
     for n_, f in saved_strats.items(): setattr(st, n_, wrap(n_, f))
+    for f_ in plan.get('faults', []):
+        seam, n_at = f_['at'].split('#'); run.faults[(seam, int(n_at))] = f_
     try:
         cls = ms.DifferentialEvolutionSolver if plan['solver'] == 'DE' else ms.DifferentialEvolutionSolver2
         s = cls(dim, npop)
@@ -184,7 +190,14 @@ def run_de(plan, run, violate, stats):
             before_pop = [tuple(float(v) for v in m) for m in s.population]
             before_E = [float(e) for e in s.popEnergy]
             e0 = len(run.evals); t0 = len(trials)
-            s.Step(cost if first else None, **kw); first = False
+            try:
+                s.Step(cost if first else None, **kw); first = False
+            except env.SimFault:
+                # the user's cost failed in the middle of a generation; the caller handles it and steps again: the retried
+                # generation has to be formed from the population as it stands, like any other
+                first = False
+                stats['aborted_generations'] = stats.get('aborted_generations', 0) + 1
+                continue
             stats['iterations'] += 1
             evs = run.evals[e0:]
             new = trials[t0:]
